@@ -17,7 +17,7 @@
 (* site, contract one inner layer, drop the inner site tag unless last      *)
 (* layer), compress_plane (merge all tensors of a site tag, then compress   *)
 (* the pair), and compute_environments (which boundary is stored under      *)
-(* which key, by reference).                                               *)
+(* which key, as copies since the fix of former KF-C12-1).                   *)
 (* Property-level invariants: CapRespected (at every hand-over every bond   *)
 (* of the boundary line is within the cap), ExactWhenUntruncated            *)
 (* (cap >= exact bond size => nothing was discarded), EnvConsistent (a      *)
@@ -36,8 +36,10 @@ CONSTANTS Sizes,        \* set of <<Lx, Ly>>
           EnvShift,     \* 0 = pinned commit; 1 = environment stored under the next key (self-test, must fail)
           SkipLastBond, \* FALSE = pinned commit; TRUE = last bond of a line left uncompressed (self-test)
           DropInnerTag, \* TRUE = pinned commit; FALSE = inner site tag kept between layers (self-test)
-          AliasExcused, \* TRUE: the in-place relabelling of stored environments by the projector mode
-                        \*       (known finding KF-C12-1) is a named deviation, excused in EnvConsistent
+          StoreByRef,   \* FALSE = current code: compute_environments stores copies (tn.select(..., virtual=False));
+                        \* TRUE  = code before "fix: compute_environments stores copies of the boundary, not views"
+                        \*         (former KF-C12-1): views are stored and the projector mode relabels them in place
+                        \*         (self-test, must fail)
           Emit          \* print the explored cases (S->C replay)
 
 VARIABLES cfg, pc, tens, cur, lost, need, err, bnd, queue, step, lay, kpos, envs, stale, hist, done, nid, ei
@@ -300,13 +302,14 @@ HandOver ==
           /\ pc' = IF Unfinished(cfg, b) <= (IF cfg.msep = 0 THEN 0 ELSE 1) THEN "final" ELSE "loop"   \* max_unfinished
   /\ UNCHANGED <<cfg, tens, cur, lost, need, err, queue, step, lay, kpos, envs, stale, nid, ei>>
 
-\* StoreEnv(k): compute_environments stores, by reference, the tensors that carry the tag of the first line
+\* StoreEnv(k): compute_environments stores the tensors that carry the tag of the first line: copies
+\* (tn.select(first_row, virtual=False)), so no later in-place modification reaches them; views if StoreByRef
 StoreEnv ==
   /\ pc = "store"
   /\ LET n == ei
          key == SweepAt(cfg, n) + (IF n >= 2 THEN EnvShift * (IF IsMin(cfg.seq[1]) THEN 1 ELSE -1) ELSE 0)
          sel == IF n = 0 THEN {} ELSE {T \in tens : FirstLine(cfg, T)} IN
-     /\ envs' = [k \in DOMAIN envs \cup {key} |-> IF k = key THEN [ids |-> {T.id : T \in sel}, atoms |-> {T.a : T \in sel}, n |-> n] ELSE envs[k]]
+     /\ envs' = [k \in DOMAIN envs \cup {key} |-> IF k = key THEN [ids |-> (IF StoreByRef THEN {T.id : T \in sel} ELSE {}), atoms |-> {T.a : T \in sel}, n |-> n] ELSE envs[k]]
      /\ ei' = n + 1
      /\ IF n + 1 >= SweepLen(cfg) THEN pc' = "final" /\ UNCHANGED <<step, lay>>
         ELSE IF n + 1 < 2 THEN pc' = "store" /\ UNCHANGED <<step, lay>>
@@ -353,7 +356,7 @@ Claim(key) == {x \in AllAtoms : IF IsMin(cfg.seq[1]) THEN LineOf(x) < key ELSE L
 EnvCovers == \A k \in DOMAIN envs : UNION envs[k].atoms = Claim(k)
 \* (a truncating in-place compression of compress_late=False also reaches stored tensors; the statement is about the
 \*  untruncated regime)
-EnvIntact == cfg.cap >= need => \A k \in stale : AliasExcused /\ cfg.mode = "proj"
+EnvIntact == cfg.cap >= need => stale = {}
 EnvConsistent == EnvCovers /\ EnvIntact
 
 SelectUnique == ~err
